@@ -48,7 +48,7 @@ use smallvec::SmallVec;
 use snafu::{OptionExt, ResultExt, ensure};
 use std::borrow::Cow;
 use std::fs::File;
-use std::io::{BufRead, BufReader, Read};
+use std::io::{BufRead, BufReader, BufWriter, Read};
 use std::path::Path;
 use std::{collections::BTreeMap, io::Write};
 
@@ -65,7 +65,7 @@ use crate::{
     PrintDataSetSnafu, PrivateCreatorNotFoundSnafu, PrivateElementError, ReadError, ReadFileSnafu,
     ReadPreambleBytesSnafu, ReadTokenSnafu, ReadUnrecognizedTransferSyntaxSnafu,
     ReadUnsupportedTransferSyntaxSnafu, ReadUnsupportedTransferSyntaxWithSuggestionSnafu,
-    UnexpectedTokenSnafu, WithMetaError, WriteError,
+    UnexpectedTokenSnafu, WithMetaError, WriteDataSetEndSnafu, WriteError,
 };
 use crate::{FileMetaTableBuilder, meta::FileMetaTable};
 use dicom_core::dictionary::{DataDictionary, DataDictionaryEntry};
@@ -1983,15 +1983,27 @@ where
         W: Write,
     {
         if let Codec::Dataset(Some(adapter)) = ts.codec() {
-            let adapter = adapter.adapt_writer(Box::new(to));
-            // prepare data set writer
-            let mut dset_writer =
-                DataSetWriter::with_ts(adapter, ts).context(CreatePrinterSnafu)?;
+            let mut to = BufWriter::new(to);
+            {
+                let adapter = adapter.adapt_writer(Box::new(&mut to));
+                // prepare data set writer
+                let mut dset_writer =
+                    DataSetWriter::with_ts(adapter, ts).context(CreatePrinterSnafu)?;
 
-            // write object
-            dset_writer
-                .write_sequence(self.into_tokens())
-                .context(PrintDataSetSnafu)?;
+                // write object
+                dset_writer
+                    .write_sequence(self.into_tokens())
+                    .context(PrintDataSetSnafu)?;
+
+                dset_writer.flush().context(PrintDataSetSnafu)?;
+            }
+
+            // the adapter may only emit its last bytes when dropped
+            // (such as the final block of a deflated stream),
+            // where I/O errors cannot be reported:
+            // these bytes are now in the buffer of `to`,
+            // so flush it here and report any error
+            to.flush().context(WriteDataSetEndSnafu)?;
 
             Ok(())
         } else {
